@@ -4,6 +4,8 @@ set -e
 cd "$(dirname "$0")"
 mkdir -p work evidence/replay
 (cd harness && CARGO_NET_OFFLINE=true cargo build --release --offline)
+[ -f surface/src/generated.rs ] || printf 'use crate::CaseFn;\npub fn cases() -> Vec<CaseFn> {\n    vec![]\n}\n' > surface/src/generated.rs
+(cd surface && CARGO_NET_OFFLINE=true cargo build --offline)
 cd spec
 for m in Terms Store Kanren Search Ref FDom StoreMC MC_Tree MC_Unify MC_FD MC_Z MC_FDom Lib MC_Lib LTermOps MC_LTerm SearchMC MC_Search LiveMC MC_Live Judge; do
   tla-sany $m.tla > ../work/sany_$m.txt 2>&1 || { cat ../work/sany_$m.txt; exit 1; }
